@@ -11,6 +11,11 @@ from .core import AnchorLost, Program
 VERIF = factsmod.VERIF
 
 
+import re as _re
+
+_FAILTEXT = _re.compile(r"\b(reachable|without|not |no |can be|is treated|instead|may |never|lost|unclassified|does not|leaves|survive|skipped|dropped)\b")
+
+
 class Check:
     def __init__(self, prop, tier, prog, seed=0):
         self.prop = prop
@@ -34,6 +39,8 @@ class Check:
     def ob(self, rule, key, ok, detail="", loc="", what=""):
         """record one obligation. key must be stable (no line numbers)."""
         assert rule in self.rules, rule
+        if ok and detail and _FAILTEXT.search(detail):
+            detail = ""  # the text describes the failure mode; the obligation holds
         self.obls.append(
             {"rule": rule, "key": f"{self.prop}/{rule}/{key}", "ok": bool(ok), "loc": loc, "detail": detail, "what": what or detail}
         )
